@@ -140,9 +140,7 @@ impl<V: Clone + Send + Sync + 'static> PartitionedState<V> {
         if let Some(spill_file) = self.spill_files[partition_idx].take() {
             let loaded = self.load_partition(&spill_file)?;
             // Delete the spill file after loading
-            let bytes = spill_file.bytes_written();
-            let _ = spill_file.delete();
-            self.manager.unregister_spilled_bytes(bytes);
+            let _ = self.manager.delete_file(spill_file);
             self.partitions[partition_idx] = Some(loaded);
         } else {
             // Neither in memory nor on disk - create empty partition
@@ -411,9 +409,7 @@ impl<V: Clone + Send + Sync + 'static> PartitionedState<V> {
         // Clean up any remaining spill files
         for spill_file in &mut self.spill_files {
             if let Some(file) = spill_file.take() {
-                let bytes = file.bytes_written();
-                let _ = file.delete();
-                self.manager.unregister_spilled_bytes(bytes);
+                let _ = self.manager.delete_file(file);
             }
         }
 
